@@ -326,6 +326,26 @@ PROPS['C10'] = {
                     '(one wire field); protocol messages are of type REVOKE (class invariant of ProtocolAttributes)'],
 }
 
+PROPS['C09'] = {
+    'sidecars': ['contracts/C09_entities.py'],
+    'level': 'exploration',
+    'explanation': 'ALMOST ENTIRELY BOUNDED.  Discharged for all attribute values, by symbolic execution of the real parser and serialiser on a '
+                   'symbolic stanza of the documented shape (scenarios): IncomingAck, OutgoingAck, Presence and the Iq base class return every '
+                   'documented attribute unchanged and invent none (4 of ~115 classes; the proof pattern is per class and was not written for the '
+                   'others in the time available).  Everything else is the bounded stand-in, which is NOT counted as proved: every '
+                   'entity class that has a fixture in the repository (53 of 115; the others are listed in the evidence) on the REAL classes '
+                   'and the REAL codec: documented stanza and value variations in the documented shape (each attribute position x each value of its '
+                   'kind, then random combinations; kinds by attribute name: JIDs, ids, timestamps, counts, flags, free Latin-1 text, printable '
+                   'blobs; list children repeated 1..4 times) -> entity -> stanza must reproduce the stanza (numbers by value), and the stanza of '
+                   'every sendable class must survive WriteEncoder / ReadDecoder unchanged.',
+    'native_checks': [{'name': 'c09_entities', 'role': 'stand-in', 'cmd': ['bounded/entity_check.py'],
+                       'bound': '53 fixture classes x (1 documented + single-position sweep over all attribute positions and kind values + 12 (quick) / '
+                                '300 (thorough) random variations); positions whose varied value the parser refuses are selectors of the shape and keep '
+                                'the documented value; binary blobs and protobuf payloads keep the documented value (C10); codec check for classes '
+                                'that are sent (name heuristic: not Incoming/Result/Success/Failure/Error/*Notification)'}],
+    'assumptions': ['the repository\'s own fixtures are the documented shapes', 'classes without a fixture are not exercised (listed in the evidence)'],
+}
+
 NOT_APPLICABLE = {
     'C11': 'quantifies over thread interleavings (2-4 sender threads through lock/queue operations); no verifier available here '
            'has a thread or permission model and sequential contracts cannot express "for every schedule" (DESIGN.md section 8)',
